@@ -61,7 +61,9 @@ def native_clause_failures(seed):
         rows["row_angles"] = np.allclose(dots, [L[1] * L[2] * np.cos(A[0]), L[2] * L[0] * np.cos(A[1]), L[0] * L[1] * np.cos(A[2])], rtol=1e-9, atol=1e-9)
         rows["volume"] = np.isclose(abs(np.linalg.det(D)), uc.volume(), rtol=1e-10)
         x = np.array([[0.3, -1.7, 2.2]])
-        rows["roundtrip"] = np.allclose(uc.to_fractional(uc.to_cartesian(x)), x, atol=1e-9) and np.allclose(uc.to_cartesian(uc.to_fractional(x)), x, atol=1e-9)
+        rows["roundtrip"] = np.allclose(uc.to_fractional(uc.to_cartesian(x)), x, atol=1e-9) and np.allclose(uc.to_cartesian(uc.to_fractional(x)), x, atol=1e-9) and \
+            np.allclose(uc.to_fractional(uc.to_cartesian(x[0])), x[0], atol=1e-9) and np.allclose(uc.to_fractional(list(uc.to_cartesian(x[0]))), x[0], atol=1e-9) and \
+            np.allclose(uc.to_fractional(x[0]), uc.to_fractional(x)[0], atol=1e-12) and np.allclose(uc.to_cartesian(x[0]), uc.to_cartesian(x)[0], atol=1e-12)
         star = [np.linalg.norm(V[:, i]) for i in range(3)]
         rows["star_lengths"] = np.allclose([uc.a_star, uc.b_star, uc.c_star], star, rtol=1e-9)
         cosang = lambda u, v: np.arccos(np.clip(u @ v / np.linalg.norm(u) / np.linalg.norm(v), -1, 1))
@@ -154,6 +156,9 @@ def build(ctx):
         out["cart"] = I2.call(I2.getattr(uc, "to_cartesian"), [farr([xs])])
         out["frac_of_cart"] = I2.call(I2.getattr(uc, "to_fractional"), [out["cart"]])
         out["cart_of_frac"] = I2.call(I2.getattr(uc, "to_cartesian"), [I2.call(I2.getattr(uc, "to_fractional"), [farr([xs])])])
+        out["frac_1d"] = I2.call(I2.getattr(uc, "to_fractional"), [farr(xs)])          # a single point given as a (3,) vector
+        out["frac_2d"] = I2.call(I2.getattr(uc, "to_fractional"), [farr([xs])])
+        out["cart_1d"] = I2.call(I2.getattr(uc, "to_cartesian"), [farr(xs)])
         out["recip"] = I2.getattr(uc, "reciprocal_lattice")
         for nm in ("a_star", "b_star", "c_star", "alpha_star", "beta_star", "gamma_star"):
             out[nm] = I2.getattr(uc, nm)
@@ -194,6 +199,12 @@ def build(ctx):
         ctx.prove("unit_cell.UnitCell.lengths_angles/ensures/reported", H,
                   conj([o["lengths"][i] == L[i] for i in range(3)] + [o["angles"][i] == [al, be, ga][i] for i in range(3)]),
                   clause="a,b,c,alpha,beta,gamma report the parameters the cell was built from", fn=f_sla)
+        # a single point given as a (3,) vector is converted like a one-row array
+        f1, f2, c1, c2 = o["frac_1d"], o["frac_2d"], o["cart_1d"], o["cart"]
+        shp = isinstance(f1, NDArr) and isinstance(c1, NDArr) and tuple(f1.shape) == (3,) and tuple(c1.shape) == (3,)
+        ctx.prove("unit_cell.UnitCell.to_fractional/ensures/single_point", H, conj([z3.BoolVal(bool(shp))] + ([z(f1.data[k]) == z(f2.data[0, k]) for k in range(3)] +
+                  [z(c1.data[k]) == z(c2.data[0, k]) for k in range(3)] if shp else [])),
+                  clause="to_fractional / to_cartesian of a (3,) vector equal row 0 of the result for the (1,3) array holding it", algebra=False, replay=replay_for("roundtrip"), fn=F("to_fractional"))
         # reciprocal lengths: x* = |column of inverse|
         col2 = lambda j: sum(V[k, j] * V[k, j] for k in range(3))
         for j, nm in enumerate(("a_star", "b_star", "c_star")):
